@@ -1,6 +1,7 @@
 import Driver.Common
 import FianoModel.Cbfs.Model
 import FianoModel.Cbfs.Spec
+import FianoModel.Cbfs.Present
 
 open Fiano Fiano.Cbfs Driver
 
@@ -44,18 +45,79 @@ def showImage (r : Except Err Image) : String :=
 
 def showEntry (e : Entry) : String := s!"{toHex e.name},{e.type},{e.offset},{e.size},{e.comp}"
 
-def handle : List String → String
-  | ["list", img] =>
-    match parseHex img with
-    | none => "bad-op"
-    | some d => showImage (newImage d)
+def kv (k : String) (v : String) : String := k ++ "=" ++ v
+
+def showJSeg (g : JSeg) : String :=
+  "{" ++ String.intercalate "," (List.zipWith kv keysSegment
+    [toHex g.type, toHex g.comp, toString g.offset, toString g.loadAddr, toString g.size, toString g.memSize]) ++ "}"
+
+def showJRec (r : JRec) : String :=
+  match r.segments with
+  | none => "{" ++ String.intercalate "," (List.zipWith kv keysFile
+      [toHex r.name, toString r.start, toString r.size, toHex r.type, toHex r.comp]) ++ "}"
+  | some gs => "{" ++ String.intercalate "," (List.zipWith kv keysPayload
+      [toHex r.name, toString r.start, toString r.size, toHex r.type,
+       "[" ++ String.intercalate ";" (gs.map showJSeg) ++ "]", toHex r.comp]) ++ "}"
+
+/-- `Image.Segs` is a nil slice when no record was found: encoding/json prints `null` -/
+def showJImage (j : JImage) : String :=
+  "{" ++ String.intercalate "," (List.zipWith kv keysImage
+    [toString j.offset,
+     if j.segments.isEmpty then "null" else "[" ++ String.intercalate ";" (j.segments.map showJRec) ++ "]"]) ++ "}"
+
+/-- the requests about one image: (operation, image hex) -/
+def splitImgReq : List String → Option (List String × String)
+  | ["list", img] => some (["list"], img)
+  | ["text", img] => some (["text"], img)
+  | ["texthex", img] => some (["texthex"], img)
+  | ["json", img] => some (["json"], img)
+  | ["update", variant, img] => some (["update", variant], img)
+  | _ => none
+
+/-- answer to a request about one image, given what `newImage` returned for it -/
+def answerImg (op : List String) (r : Except Err Image) : String :=
+  match op with
+  | ["list"] => showImage r
+  | ["text"] =>
+    -- Image.String(): digest and length of the text
+    match r with
+    | .error _ => "err"
+    | .ok i => let t := textListing i; s!"{(fnv1a t).toNat} {t.length}"
+  | ["texthex"] =>
+    match r with
+    | .error _ => "err"
+    | .ok i => toHex (textListing i)
+  | ["json"] =>
+    -- Image.MarshalJSON: the ordered key / value structure handed to encoding/json
+    match r with
+    | .error _ => "err"
+    | .ok i => showJImage (jsonListing i)
+  | ["update", variant] =>
+    -- Image.Update on the image as read: error class, digest and length of Image.Data afterwards
+    if variant ≠ "fix" ∧ variant ≠ "head" then "bad-op" else
+    match r with
+    | .error _ => "err"
+    | .ok i =>
+      let (out, e) := if variant = "fix" then update i else updateHead i
+      let es := match e with
+        | none => "ok"
+        | some .region => "region"
+        | some .panic => "panic"
+      s!"{es} {(fnv1a out).toNat} {out.length}"
+  | _ => "bad-op"
+
+/-- `serlist`: both sides build the image from the recipe; returns the image too (for the cache) -/
+def serlist : List String → Option (Bytes × Except Err Image)
   | ["serlist", pre, post, fill, recs] =>
     match parseHex pre, parseHex post, fill.toNat?, parseRecs recs with
     | some p, some q, some f, some rs =>
-      if f ≥ 256 then "bad-op" else
+      if f ≥ 256 then none else
       let img := Spec.ser { pre := p, recs := rs, fill := UInt8.ofNat f, post := q }
-      s!"{(fnv1a img).toNat} {img.length} {showImage (newImage img)}"
-    | _, _, _, _ => "bad-op"
+      some (img, newImage img)
+    | _, _, _, _ => none
+  | _ => none
+
+def handleOther : List String → String
   | ["entries", recs] =>
     -- the abstract listing of the reference grammar (Spec.entries), for the spec-side oracle
     match parseRecs recs with
@@ -70,6 +132,62 @@ def handle : List String → String
       | none => s!"none {compression f}"
       | some b => s!"some {toHex b} {compression f}"
     | _, _ => "bad-op"
+  | ["runes", s] =>
+    match parseHex s with
+    | none => "bad-op"
+    | some b => s!"{runeCount b} {toHex (coerceUTF8 b)}"
   | _ => "bad-op"
 
-def main : IO Unit := loop handle
+/-- the pure request handler (the specification of the driver) -/
+def handle (ws : List String) : String :=
+  match splitImgReq ws with
+  | some (op, hx) =>
+    match parseHex hx with
+    | none => "bad-op"
+    | some d => answerImg op (newImage d)
+  | none =>
+    match ws with
+    | "serlist" :: _ =>
+      match serlist ws with
+      | some (img, r) => s!"{(fnv1a img).toNat} {img.length} {showImage r}"
+      | none => "bad-op"
+    | _ => handleOther ws
+
+/-- `handle`, with the result of `newImage` for the last image kept: the harness asks several
+    questions (list, text, json, update) about the same bytes in a row, and parsing dominates. The
+    answers are those of `handle`. -/
+partial def main : IO Unit := do
+  let stdin ← IO.getStdin
+  let stdout ← IO.getStdout
+  let cache ← IO.mkRef (none : Option (String × Except Err Image))
+  let rec go : IO Unit := do
+    let line ← stdin.getLine
+    if line.isEmpty then return ()
+    let ws := words line
+    let out ← match splitImgReq ws with
+      | some (op, hx) => do
+        let hit := match (← cache.get) with
+          | some (k, v) => if k == hx then some v else none
+          | none => none
+        match hit with
+        | some r => pure (answerImg op r)
+        | none =>
+          match parseHex hx with
+          | none => pure "bad-op"
+          | some d =>
+            let r := newImage d
+            cache.set (some (hx, r))
+            pure (answerImg op r)
+      | none =>
+        match ws with
+        | "serlist" :: _ =>
+          match serlist ws with
+          | some (img, r) =>
+            cache.set (some (toHex img, r))
+            pure s!"{(fnv1a img).toNat} {img.length} {showImage r}"
+          | none => pure "bad-op"
+        | _ => pure (handleOther ws)
+    stdout.putStrLn out
+    stdout.flush
+    go
+  go
